@@ -93,11 +93,22 @@ def check_requirement(F, f, block, req):
        between:<A>:<B>:<C>           every path from a call to A to a call to C passes through a call to B
        infn:<function>|<requirement> the requirement holds in another function (cross-function invariants)
        adjacent:<A>|<B>              after every call to A the next call to a method of the same type is B (nothing runs in between)
+       argfrom:<n>|<callee,alts>     argument n of the site's call is (computed from) the result of one of the callees
        paired:<A>|<B>|<const>        every call to A is dominated by a call to B that carries the constant <const>
                                      and acts on the same parameter as A's receiver (A must occur)"""
     from cfgq import calls_to, call_result_edges, must_pass
     parts = req.split(":")
     kind = parts[0]
+    if kind == "argfrom":
+        n, alts = req[len("argfrom:"):].split("|", 1)
+        t = f.blocks[block]["term"]
+        if t["k"] != "call" or len(t.get("args", [])) <= int(n):
+            return False, f"site at {f.where(block)} is not a call with argument {n}"
+        e = resolve(f, t["args"][int(n)])
+        cs = {x[1] for x in walk(e) if x[0] == "call"}
+        if any(_suffix(c, a) for c in cs for a in alts.split(",")):
+            return True, ""
+        return False, f"argument {n} is `{show(e)[:120]}`, not a result of {alts}"
     if kind == "infn":
         fn, inner = req[len("infn:"):].split("|", 1)
         gs = [g for g in F.find(fn) if ("{closure" in fn) == g.is_closure()]
@@ -273,6 +284,28 @@ def _is_box_ptr(f, l):
 
 # =================================================================================================
 # D4 index / slice sites
+# std functions that panic on an out-of-range / non-char-boundary / zero argument: the same hazard as `v[i]` and `&s[a..b]`
+# written as a method call (round 11, seed C03k: `s.split_at(2)` for `s.split_once('_')`)
+PANICKY_STD = [(re.compile(p), n) for p, n in (
+    (r"<impl str>::split_at(_mut)?$", "str::split_at"), (r"<impl \[T\]>::split_at(_mut)?$", "slice::split_at"),
+    (r"Vec::<T, A>::(insert|remove|swap_remove|split_off|drain)$", "Vec::\\1"),
+    (r"VecDeque::<T, A>::(insert|swap|split_off|drain|range|range_mut)$", "VecDeque::\\1"),
+    (r"String::(insert|insert_str|remove|split_off|drain|replace_range|truncate)$", "String::\\1"),
+    (r"<impl \[T\]>::(swap|copy_from_slice|clone_from_slice|chunks|chunks_mut|chunks_exact|chunks_exact_mut|rchunks|windows|rotate_left|rotate_right|copy_within|select_nth_unstable\w*|swap_with_slice)$", "slice::\\1"),
+    (r"Iterator>::step_by$", "Iterator::step_by"), (r"RefCell::<T>::(borrow|borrow_mut)$", "RefCell::\\1"),
+    (r"<impl char>::(from_digit|to_digit|is_digit)$", "char::\\1"), (r"<impl str>::repeat$", "str::repeat"),
+    (r"<impl (u8|u16|u32|u64|usize|i8|i16|i32|i64|isize)>::(abs|pow|div_euclid|rem_euclid|ilog|ilog2|ilog10|next_power_of_two|isqrt)$", "int::\\2"),
+)]
+
+
+def panicky_std(ck):
+    for rx, name in PANICKY_STD:
+        m = rx.search(ck)
+        if m:
+            return m.expand(name)
+    return None
+
+
 def index_sites(F: Facts):
     for k in sorted(F.funcs):
         f = F.funcs[k]
@@ -293,6 +326,10 @@ def index_sites(F: Facts):
                 if cont == "map":
                     continue
                 yield dict(region=region, kind=f"{kind}:{cont}", where=f.where(b), func=k, block=b)
+                continue
+            ps = panicky_std(ck)
+            if ps and not t.get("macros"):
+                yield dict(region=region, kind=f"call:{ps}", where=f.where(b), func=k, block=b)
 
 
 def d4_index(chk, F, pid="C03", only_regions=None):
@@ -1014,7 +1051,7 @@ def run(chk: harness.Check):
         "sum/product is reviewed in tables/narrow_arith.toml; D3 every CFG loop is driven by a finite std iterator or every one of "
         "its cycles passes through the reviewed progress construct of tables/progress.toml, and every recursion cycle is preceded "
         "by its progress call. This decides that the set of ways the library can fail to return is the reviewed set — not that it never fails: "
-        "index and slice sites are an armed inventory (D4, tables/index_sites.toml) whose entries carry machine-checked dominance requirements where the invariant is local; usize additions are counted only. D6: the token slice handed to slice_str / text / float is never an owned, filtered copy (debug_assert_adjacent!). D5: every offset that reaches a diagnostic label has the provenance C04.D1 accepts (report rendering panics on anything else).")
+        "index and slice sites are an armed inventory (D4, tables/index_sites.toml) whose entries carry machine-checked dominance requirements where the invariant is local — the inventory includes std calls that panic on a bad index, a non-char-boundary or a zero size (split_at, Vec::insert/remove, String::insert/truncate, windows/chunks, step_by, RefCell::borrow, integer abs/pow); usize additions are counted only. D6: the token slice handed to slice_str / text / float is never an owned, filtered copy (debug_assert_adjacent!). D5: every offset that reaches a diagnostic label has the provenance C04.D1 accepts (report rendering panics on anything else).")
     chk.trusted = ["rustc MIR (dev profile: overflow checks and debug assertions present)",
                    "macro-generated items (derive, bitflags, thiserror, strum, uniffi scaffolding) trusted by origin",
                    "std/dependency internals (serde_yaml, codesnake) out of scope", "tables/*.toml are the reviewed reference"]
